@@ -122,6 +122,12 @@ static void gen_c03(const std::string& tier, std::vector<Case>& cases) {
                     Case c; c.fund = S.fund; c.tx = S.tx; c.flags = f; c.label = base + " valid flags=STANDARD^" + alpha::flag_name(bit); c.klass = std::string("valid-flags^") + alpha::flag_name(bit); cases.push_back(c);
                     if (first_shape) for (size_t di : {size_t(0), devs.size() - 5}) { Case c2; c2.fund = S.fund; c2.tx = devs[di].second; c2.flags = f; c2.label = base + " " + devs[di].first + " flags=STANDARD^" + alpha::flag_name(bit); c2.klass = klass_of(devs[di].first) + "-flags^" + alpha::flag_name(bit); cases.push_back(c2); }
                 }
+                // thorough: every pair of non-activation flag toggles on the valid spend of the first shape
+                if (th && first_shape && pathlen <= 1 && !annex) for (int b1 = 1; b1 <= 20; b1++) for (int b2 = b1 + 1; b2 <= 20; b2++) {
+                    if (b1 == 11 || b1 == 17 || b2 == 11 || b2 == 17) continue;
+                    uint32_t f = F_STANDARD ^ (1u << b1) ^ (1u << b2);
+                    Case c; c.fund = S.fund; c.tx = S.tx; c.flags = f; c.label = base + " valid flags=STANDARD^" + alpha::flag_name(b1) + "^" + alpha::flag_name(b2); c.klass = std::string("valid-flags^") + alpha::flag_name(b1) + "^" + alpha::flag_name(b2); cases.push_back(c);
+                }
                 if (first_shape && pathlen <= 1 && !annex) { Case c; c.fund = S.fund; c.tx = S.tx; c.flags = F_P2SH | F_WITNESS | F_TAPROOT; c.label = base + " valid flags=P2SH,WITNESS,TAPROOT only"; c.klass = "valid-flags-activation-only"; cases.push_back(c); }
                 first_shape = false;
             }
